@@ -169,7 +169,7 @@ def run(ctx):
                     emit(i, op, sym, eqs, {"shape": "x".join(map(str, dims)), "factors": nf})
                 elif op == "cmatmul":
                     nf = rng.choice([2, 2, 3])
-                    dims = [min(n, 3)] * (nf + 1)
+                    dims = [min(n, 3 if nf == 2 else 2)] * (nf + 1)
                     mats_r = [rmat(i, dims[k], dims[k + 1], base, shared, allow_num=False) for k in range(nf)]
                     mats_i = [rmat(i, dims[k], dims[k + 1], base, shared, allow_num=False) for k in range(nf)]
                     mats = []
